@@ -722,9 +722,13 @@ fn describe_served(served: &[Served]) -> String {
 }
 
 pub fn replay(scratch: &Path, cfg: Cfg, mode: Mode, fresh: &FreshCache, history: &[Ev]) -> RunResult {
-    let rt = tokio::runtime::Builder::new_current_thread().enable_all().max_blocking_threads(2).build().expect("tokio runtime");
+    thread_local! {
+        // one single-threaded runtime per worker thread (its blocking-pool thread is reused by the imports)
+        static RT: tokio::runtime::Runtime =
+            tokio::runtime::Builder::new_current_thread().enable_all().max_blocking_threads(2).build().expect("tokio runtime");
+    }
     let db = new_db(scratch);
-    let res = rt.block_on(async {
+    let res = RT.with(|rt| rt.block_on(async {
         let server = Arc::new(Mutex::new(Server::new(MAX_LEN)));
         let mut run = Run {
             cfg,
@@ -768,8 +772,7 @@ pub fn replay(scratch: &Path, cfg: Cfg, mode: Mode, fresh: &FreshCache, history:
         let r = RunResult { canon, violations: std::mem::take(&mut run.violations), nontrivial, outcome: run.outcome.clone(), disabled };
         run.sut = None;
         r
-    });
-    drop(rt);
+    }));
     remove_db(&db);
     res
 }
